@@ -17,7 +17,7 @@ typedef struct {
     /* these two must come first */
     unsigned char num_arg;
     unsigned char num_local;
-    short offset;
+    unsigned short offset;      /* code offset: up to 65535, must not turn negative above 32767 */
     program_t *prog;
     short fio, vio;
 } functional_t;
